@@ -20,18 +20,27 @@ is sampled.  For every distribution the clauses of the property are evaluated:
               neighbours, thirds/quarters, half-step tie points and their ulp neighbours) untransforms
               into the domain
 
-Mutations of optuna this check must catch (verified on a scratch copy, see the report of the round
-that added this file; keys are the finding keys printed):
+Mutations of optuna this check must catch.  M1-M4 and M6-M9 were applied one at a time to a scratch
+copy of optuna and the quick tier run against it: each produced NEW finding keys (listed), none of
+which appears on the unmodified tree.
   M1 `_adjust_discrete_uniform_high` with float arithmetic instead of Decimal
-       -> construct|Float step|-|high-adjust (e.g. low=0.1 high=0.7 step=0.1 gives high=0.6)
+       -> construct|Float step|-|high-adjust, json|Float step|-|not-equal / not-idempotent,
+          contains|Float step|-|answer-changed (and the same for DiscreteUniformDistribution)
   M2 `step` dropped from the JSON of FloatDistribution (`_asdict` without "step")
-       -> json|Float step|-|not-equal (+ contains / compat answers change)
-  M3 the clip removed from the stepped branch of `_untransform_numerical_param`
-       -> box|Float step|log=* step=1 01=*|outside-domain (box corner low - step/2 ... maps outside)
-  M4 floor instead of round in the stepped untransform
-       -> transform-roundtrip|Float step|...|value-changed
-  M5 (not detectable, by design) dropping the half-step padding of `bounds` for transform_step: the
+       -> json|Float step|-|not-equal, json|Float*|-|attributes, contains|Float step|-|answer-changed
+  M3 np.clip removed from the stepped-float branch of `_untransform_numerical_param`
+       -> box|Float step|log=* step=* 01=*|outside-domain, transform-roundtrip|...|value-changed
+  M4 np.floor instead of np.round in the stepped untransform
+       -> float branch: transform-roundtrip|Float step|log=* step=* 01=*|value-changed;
+          int branch: transform-roundtrip|Int step|log=* step=* 01=1|value-changed (integer division is
+          exact, so only the 0_1 scaling exposes it)
+  M5 NOT detectable, by design: dropping the half-step padding of `bounds` under transform_step.  The
        property says nothing about the size of the box, only that every point of it maps into the domain.
+  M6 np.clip removed from the log-int branch -> box|Int log|log=1 step=1 01=*|outside-domain
+  M7 the min(..., nextafter(high)) clip removed from the continuous float branch
+       -> box|Float|log=* step=* 01=1|outside-domain
+  M8 IntDistribution.to_external_repr rounding half up -> repr|Int*|-|value-changed
+  M9 CategoricalDistribution.__eq__ comparing choices with plain `!=` -> json|Categorical nan|-|not-equal
 
 Reading of the property where the text leaves room (all stated in `assumptions` of the evidence):
   * deprecated classes: in this tree json_to_distribution returns the *same deprecated class* (it
@@ -43,19 +52,43 @@ Reading of the property where the text leaves room (all stated in `assumptions` 
     sense (plain `==` cannot hold for NaN and is not demanded).  Choices that compare equal to an
     earlier choice (True/1/1.0, False/0/0.0) map to the first match - documented in a NOTE in
     to_internal_repr - so only `==`, not identity/type, is demanded for them.
-  * stepped floats: "contained grid value" k is the float the library itself produces for index k,
-    clip(k*step + low, low, high) (exact round trip demanded), plus the decimal-typed value
-    float(low + k*step) a user would write (tolerance: it must come back within 2 ulp of
-    max(|low|,|high|), still contained: binary arithmetic cannot give more, 0.1+2*0.1 != 0.3).
+  * stepped floats: the property quantifies over "contained values", but `_contains` accepts every
+    float within 1e-8 steps of a grid point, so one representative per grid index k has to be chosen.
+    Exact round trip is demanded of the float the library itself produces for index k,
+    clip(k*step + low, low, high), and of the distribution's own `low` and `high`.  The decimal-typed
+    value float(low + k*step) a user would write must come back within 4 ulp of max(|low|,|high|)
+    and still be contained (binary arithmetic cannot give more: 0.1 + 2*0.1 != 0.3); how often it is
+    not a fixed point is counted (`decimal_grid_values_changed_within_tolerance`).
   * continuous floats: `untransform` clips to nextafter(high, -inf) on purpose (half-open range), so
     v == high returns 1 ulp below high; accepted and counted (`high_clipped_1ulp`).
+  * log floats: see tol_log / tol_log_01 - "a few ulps" cannot be a constant over [1e-6, 1e6] because
+    exp(log(v)) is only good to about |ln v| ulps.
+
+Findings on the unmodified tree (genuine, kept reported; three families of keys):
+  A transform-roundtrip|Float step / DiscreteUniformDistribution|...|high-changed
+      the distribution's own `high` is not a fixed point: FloatDistribution(0.0, 0.9, step=0.3),
+      untransform(transform({"x": 0.9})) == 0.8999999999999999 (3*0.3 in binary; `high` is computed
+      in Decimal, the grid in binary).  No sampler can return `high` for such a distribution.
+  B ...(scale/step>=1e7): `_contains` tolerates 1e-8 on the grid index, float arithmetic resolves the
+      index only to about scale/step * 1e-16: FloatDistribution(0.1, 70, step=1e-6)._contains(70.0)
+      is False (its own `high`), values produced by untransform are rejected as well
+      (optuna.trial.create_trial with that value raises ValueError).
+    ...(high>15digits): FloatDistribution(9.999e-6, 9.999e6, step=1e-6) - the exact adjusted high
+      has 16 significant digits, float(high) prints as another decimal, re-parsing the JSON adjusts
+      it again and the round trip is not equal (thorough lattice only).
+  C ...|Int log|log=0 ...: with transform_log=False the log-int branch of untransform is a bare
+      int(x): the corner low-0.5 of the transform_step box maps to low-1
+      (IntDistribution(1, 1, log=True) -> 0), and with transform_0_1 the scaling error truncates
+      (IntDistribution(2, 70, log=True): 7 -> 6).  The docstring of _SearchSpaceTransform says
+      transform_log "should always be True" when sampling from the box; the round-trip failure does
+      not involve sampling.
 """
 from __future__ import annotations
 
+import decimal
 import itertools
 import json
 import math
-import os
 import struct
 import warnings
 from fractions import Fraction
@@ -73,7 +106,8 @@ FLAGS = [(tl, ts, z) for tl in (0, 1) for ts in (0, 1) for z in (0, 1)]
 # Measured on the unmodified tree over the thorough lattice (max_* counters in the evidence) and
 # bounded by the arithmetic the code performs - see `assumptions`.
 TOL_01 = 2           # continuous floats with transform_0_1: ulps of max(|low|,|high|) (measured: 1)
-TOL_DEC = 3          # decimal-typed grid values of stepped floats: ulps of max(|low|,|high|) (measured: 2)
+TOL_DEC = 4          # decimal-typed grid values of stepped floats: ulps of max(|low|,|high|) (measured: 3)
+MAX_DIGITS = 15      # stepped floats whose exact `high` needs more significant digits are keyed separately
 HUGE_RATIO = 1e7     # stepped floats with max(|low|,|high|)/step >= 1e7 are keyed separately (see below)
 
 
@@ -144,7 +178,7 @@ def sizes(tier: str) -> dict[str, Any]:
     allexp = list(range(-6, 7))
     if tier == "quick":
         return dict(
-            cont=lattice(["1", "3", "7", "1.5", "2.25", "9.999"], allexp, True, True),
+            cont=lattice(["1", "3", "7", "1.5", "2.25", "9.999", "1.001"], allexp, True, True),
             logv=lattice(["1", "3", "7", "1.5", "2.25", "9.999", "1.001", "5"], allexp, False, False),
             stepv=lattice(["1", "3", "7", "1.5", "2.25", "9.999"], [-6, -3, -1, 0, 1, 3], True, True),
             steps=["0.1", "0.3", "0.25", "1", "7", "1e-3", "0.5", "1.5", "2.25", "100", "1e-6", "0.07", "30"],
@@ -167,7 +201,7 @@ def sizes(tier: str) -> dict[str, Any]:
                       "1.25", "3.3", "1.1", "9"], allexp, False, False),
         stepv=lattice(["1", "3", "7", "2.25", "9.999"], allexp, True, True),
         steps=["0.1", "0.3", "0.25", "1", "7", "1e-3", "0.5", "1.5", "2.25", "100", "1e-6", "0.07", "30",
-               "0.01", "0.2", "0.7", "3", "1.001", "1e-4", "0.6"],
+               "0.01", "0.2", "0.7", "3", "1.001"],
         intv=int_lattice([1, 2, 3, 5, 7, 15, 64, 225, 1001, 9999], [0, 1, 2, 3], True),
         isteps=[1, 2, 3, 7, 10, 64, 4, 5, 100, 1001],
         ilogv=int_lattice([1, 2, 3, 5, 7, 15, 64, 225, 1001, 9999], [0, 1, 2, 3], False),
@@ -343,6 +377,7 @@ class NumCase:
         if fam == "I" and step == 1:
             self.label = "Int"
         self.is_int = fam in INT_FAMS
+        self.high_digits = 0
         self.inp = {"family": fam, "class": self.cls, "low": lo, "high": hi, "step": step, "log": self.log}
         self.d = make(D, fam, lo, hi, step)
         d = self.d
@@ -356,6 +391,10 @@ class NumCase:
             self.exp_high = float(L + self.n * S)
             self.stepf = float(step)
             self.L, self.S = L, S
+            with decimal.localcontext() as dctx:
+                dctx.prec = 80
+                exact_high = decimal.Decimal(lo) + self.n * decimal.Decimal(step)
+                self.high_digits = len(exact_high.normalize().as_tuple().digits)
         else:
             self.n = 0
             self.exp_high = float(hi)
@@ -386,7 +425,8 @@ class NumCase:
             for k in self.ks:
                 put(min(max(k * st + lo, lo), hi), "exact")  # what the library produces for index k
             for k in self.ks:
-                put(float(self.L + k * self.S), "dec")      # what a user types for index k
+                if k <= 16 or k >= self.n - 1 or k == self.n // 2:
+                    put(float(self.L + k * self.S), "dec")  # what a user types for index k
             put(lo, "exact")
             put(hi, "high")
         else:
@@ -440,6 +480,10 @@ def check_numeric(D, T, c: NumCase, part: Part) -> None:
     huge = ""
     if c.has_step and not c.is_int and max(abs(d.low), abs(d.high)) / d.step >= HUGE_RATIO:
         huge = "(scale/step>=1e7)"
+    # stepped floats whose exact decimal `high` = low + k*step has more than 15 significant digits:
+    # float(high) is then no longer the decimal number the Decimal-based adjustment computed, and
+    # re-parsing adjusts it again: failures of the JSON clauses there get their own keys
+    wide = "(high>15digits)" if c.high_digits > MAX_DIGITS else ""
 
     flags: dict | None = None
 
@@ -457,17 +501,17 @@ def check_numeric(D, T, c: NumCase, part: Part) -> None:
     if type(r1) is not type(d):
         viol("json", "-", "class-changed", json=s1, observed=repr(r1))
     elif not (r1 == d and d == r1) or r1 != d:
-        viol("json", "-", "not-equal", json=s1, observed=repr(r1))
+        viol("json", "-", "not-equal" + wide, json=s1, observed=repr(r1))
     else:
         sa = same_attrs(d, r1)
         if sa:
             viol("json", "-", sa.split(":")[0], json=s1, observed=repr(r1), detail=sa)
     s2 = D.distribution_to_json(r1)
     if s2 != s1:
-        viol("json", "-", "second-json-differs", json=s1, observed=s2)
+        viol("json", "-", "second-json-differs" + wide, json=s1, observed=s2)
     r2 = D.json_to_distribution(s2)
     if not (r2 == r1):
-        viol("json", "-", "not-idempotent", json=s1, observed=repr(r2))
+        viol("json", "-", "not-idempotent" + wide, json=s1, observed=repr(r2))
     # the stored JSON must carry the documented fields
     att = json.loads(s1)["attributes"]
     want = {"low": d.low, "high": d.high}
@@ -487,12 +531,12 @@ def check_numeric(D, T, c: NumCase, part: Part) -> None:
         ab["step"] = d.step
     ra = D.json_to_distribution(json.dumps(ab))
     if type(ra) is not type(neq) or ra != neq or same_attrs(ra, neq):
-        viol("json-abbrev", "-", "not-equal", json=json.dumps(ab), observed=repr(ra), expected=repr(neq))
+        viol("json-abbrev", "-", "not-equal" + wide, json=json.dumps(ab), observed=repr(ra), expected=repr(neq))
     conv = D._convert_old_distribution_to_new_distribution(d, suppress_warning=True)
     if type(conv) is not type(neq) or conv != neq or same_attrs(conv, neq):
-        viol("convert", "-", "not-equal", observed=repr(conv), expected=repr(neq))
+        viol("convert", "-", "not-equal" + wide, observed=repr(conv), expected=repr(neq))
     if (neq.low, neq.high, neq.step, neq.log) != (d.low, d.high, d.step, d.log):
-        viol("convert", "-", "equivalent-readjusted", observed=repr(neq))
+        viol("convert", "-", "equivalent-readjusted" + wide, observed=repr(neq))
 
     # ---- values: repr + contains ----------------------------------------------------------
     part.add("evaluations")
@@ -524,7 +568,7 @@ def check_numeric(D, T, c: NumCase, part: Part) -> None:
     for x in probes:
         a, b = d._contains(x), r1._contains(x)
         if a != b or (r2._contains(x) != a):
-            viol("contains", "-", "answer-changed", probe=repr(x), expected=a, observed=b)
+            viol("contains", "-", "answer-changed" + wide, probe=repr(x), expected=a, observed=b)
     part.add("contains_probes", len(probes))
     for x in (d.low - st, d.high + st, down(float(d.low)), up(float(d.high)), math.inf, -math.inf, NAN):
         if d._contains(x):
@@ -914,9 +958,10 @@ def run(tier: str, replay: str | None = None) -> int:
     if replay is not None:
         rep = json.load(open(replay))
         inp = rep["input"]
-        if inp["family"] == "C":
-            raise SystemExit("replay of categorical findings: re-run the tier (the task is the first pool index)")
-        tasks = [("num", [(inp["family"], inp["low"], [inp["high"]], [inp["step"]], 64)])]
+        if inp["family"] == "C":  # re-runs every choice tuple that starts with the same pool element
+            tasks = [("cat", inp["pool_indices"][0], rep.get("tier", tier))]
+        else:
+            tasks = [("num", [(inp["family"], inp["low"], [inp["high"]], [inp["step"]], 64)])]
     else:
         tasks = plan(tier)
     pmap(ctx, worker, tasks)
@@ -930,9 +975,12 @@ def run(tier: str, replay: str | None = None) -> int:
         "ordinary magnitudes = decimal numbers of <= 4 significant digits with exponent in [-6, 6], as the correctly rounded double of the typed decimal string",
         "deprecated classes: json_to_distribution returns the same deprecated class in this tree; equality demanded literally, plus the documented conversion gives the new-class distribution with identical low/high/step/log",
         "NaN choices: equality in the library's documented NaN-aware sense (_categorical_choice_equal); choices equal to an earlier choice (True/1/1.0) map to the first match (documented NOTE) and are only compared with ==",
-        "stepped floats: exact transform round trip demanded for low, high and the values clip(k*step+low) the library produces; decimal-typed float(low+k*step) values must come back within 2 ulp of max(|low|,|high|)",
+        "stepped floats: exact transform round trip demanded for low, high and the values clip(k*step+low) the library produces; decimal-typed float(low+k*step) values must come back within 4 ulp of max(|low|,|high|) and stay contained",
         "continuous floats: untransform clips to nextafter(high,-inf) on purpose, v == high coming back 1 ulp lower is accepted; with transform_0_1 the scaling arithmetic is allowed 2 ulp of max(|low|,|high|)",
+        "log floats with transform_log: exp(log(v)) is good to about |ln v| ulps, so 'a few ulps' is max(4, 2+ceil|ln v|) (16 at 1e+-6; measured max 9); with transform_0_1 additionally 2*ceil(max|ln bound|) ulps for the scaling in log space (measured max 25); box points of log floats may leave [low, high] by the same max(4, 2+ceil|ln bound|) ulps (measured max 8)",
         "the abbreviated JSON form has no serialiser in optuna; it is written by the check from the attributes",
+        "finding keys of stepped floats carry (scale/step>=1e7) when max(|low|,|high|)/step >= 1e7 and (high>15digits) when the exact adjusted high needs more than 15 significant digits; flags that cannot matter for a class are printed as * in keys",
+        "multi-parameter configurations: every value / box point of one distribution is carried by one configuration of a search space {categorical, d, d, ..., d}; spaces mixing different numeric distributions are not enumerated",
     ]
     return ctx.finish(
         exhaustive=True,
